@@ -748,6 +748,28 @@ theorem shared_write_then_clone_counterexample :
     view (run cacheSt mixed) 1 = some [(1, [22, 7]), (1, [1, 2, 3, 4])] ∧
     view (run cacheSt mixed) 1 ≠ view (run cacheSt aloneA) 1 := by decide
 
+/-- A cache that keeps the response itself instead of a clone of it (`cachedResp := resp` in
+`ecscache.Middleware.set`): the response goes on to the client, the server releases it after writing it
+(handle 0 is dead: the handle table, i.e. the ownership discipline, has no message for the item any more),
+and the clone of another client's answer is built in its storage: the cells the item points to now hold
+the other client's records.  What a cache keeps must be a handle of its own — a clone (`ecs_set_clone_src`,
+`simple_set_item_src`, `Agd.Tie.TrC07.ecs_set_stores_clone`). -/
+theorem cache_keeps_response_counterexample :
+    let s1 := newMsg St.init 0 2 [⟨7, 0, 2, [1, 2]⟩]
+    let kept := (s1.live 0).getD []
+    let s2 := dispose s1 0
+    let s3 := newMsg s2 1 2 [⟨7, 0, 2, [8, 9]⟩]
+    let s4 := (clone s3 1 2).1
+    contentM s1.heap kept = [(7, [1, 2])] ∧ contentM s4.heap kept = [(7, [8, 9])] ∧
+      view s4 0 = none ∧ view s4 2 = some [(7, [8, 9])] := by decide
+
+/-- With a clone as the item (handle 5, made before the response is released) the same history leaves the
+item alone. -/
+example :
+    let s1 := (clone (newMsg St.init 0 2 [⟨7, 0, 2, [1, 2]⟩]) 0 5).1
+    let s4 := (clone (newMsg (dispose s1 0) 1 2 [⟨7, 0, 2, [8, 9]⟩]) 1 2).1
+    view s4 5 = some [(7, [1, 2])] ∧ view s4 2 = some [(7, [8, 9])] := by decide
+
 /-- The `dns.Copy` fall-back of the unchanged tree (`cloneOld`: the copy of a subnet option keeps the
 original's address): W = OPT + subnet + unknown option is cloned, the clone is released, and the clone of
 an unrelated message X then overwrites W's subnet, although nothing targeted W. -/
@@ -779,6 +801,7 @@ example :
 #print axioms interleaving_irrelevant
 #print axioms demoMix_disc
 #print axioms copy_old_counterexample
+#print axioms cache_keeps_response_counterexample
 #print axioms inv_step
 #print axioms specsOk_of
 #print axioms donate_specObj
@@ -975,3 +998,7 @@ end Agd.PoolCtx
 #print axioms Agd.Tie.TrC07.filtering_context_reset
 #print axioms Agd.Tie.TrC07.request_info_reset
 #print axioms Agd.Tie.TrC07.request_info_messages
+#print axioms Agd.Tie.TrC07.flt_request_filled
+#print axioms Agd.Tie.TrC07.flt_response_filled
+#print axioms Agd.Tie.TrC07.flt_put_drops_message
+#print axioms Agd.Tie.TrC07.ecs_set_stores_clone
